@@ -16,10 +16,22 @@ structure RespX where
   hdr  : Nat
 deriving Repr
 
+/-- the committed (previous header, header) pair of a block on the chain a call
+reads, `none` for a block that is not on it -/
+abbrev HdrAt := Nat → Option (Nat × Nat)
+
+/-- blocks named by their height on a chain with committed filter headers `fhs` -/
+def hdrAtOf (fhs : List Nat) : HdrAt := fun b =>
+  if 1 ≤ b ∧ b < fhs.length then some (fhs.getD (b - 1) 0, fhs.getD b 0) else none
+
 /-- a response that matches the committed header of the block it names -/
-def RespX.good (fhs : List Nat) (x : RespX) : Bool :=
-  x.r.isCFilter && x.r.ftypeOk && x.r.decodes && decide (1 ≤ x.r.blk) && decide (x.r.blk < fhs.length) &&
-  x.prev == fhs.getD (x.r.blk - 1) 0 && x.hdr == fhs.getD x.r.blk 0 && x.hdr != 0
+def RespX.goodAt (hdrAt : HdrAt) (x : RespX) : Bool :=
+  x.r.isCFilter && x.r.ftypeOk && x.r.decodes &&
+  (match hdrAt x.r.blk with
+   | some (p, c) => x.prev == p && x.hdr == c && x.hdr != 0
+   | none => false)
+
+def RespX.good (fhs : List Nat) (x : RespX) : Bool := x.goodAt (hdrAtOf fhs)
 
 structure CEntry where
   blk : Nat
@@ -35,7 +47,10 @@ structure DEntry where
 deriving Repr, DecidableEq
 
 inductive ObsResult where
-  | ret (fid : Nat) (v : Bool)
+  /-- `v`: the requested hash is on the chain and the filter hash-chains to the
+  committed header of THAT block; `other`: the bytes are the ground-truth filter
+  of another block (the one at the same height on the other branch) -/
+  | ret (fid : Nat) (v : Bool) (other : Bool := false)
   | err (kind : String)
 deriving Repr, DecidableEq
 
@@ -60,25 +75,25 @@ def dupIn : List Nat → Bool
 
 /-- Violated clauses of C05 on one call (tags).  `fhs`: the filter headers
 committed when the call was made; `best`: min(block tip, filter tip). -/
-def oracle (fhs : List Nat) (best : Nat) (maxRangeObs : Int) (c : Call) (xs : List RespX) (b : Before) (o : Obs) : List String :=
+def oracleAt (hdrAt : HdrAt) (heightOf : Nat → Nat) (best : Nat) (maxRangeObs : Int) (c : Call) (xs : List RespX) (b : Before) (o : Obs) : List String :=
   let dl := xs.take o.prog.length
   let inC := fun (l : List CEntry) (blk fid : Nat) => l.any (fun e => e.blk == blk && e.fid == fid)
   let inD := fun (l : List DEntry) (blk fid : Nat) => l.any (fun e => e.blk == blk && e.fid == fid)
-  let goodFlags := dl.map (fun x => x.good fhs)
+  let goodFlags := dl.map (fun x => x.goodAt hdrAt)
   let gl := ((dl.zip goodFlags).filter (·.2)).map (fun p => (p.1.r.blk, p.1.r.fid))
   let goodFor := fun (blk fid : Nat) => gl.any (fun p => p.1 == blk && p.2 == fid)
   let inRange := fun (blk : Nat) => match o.range with
-    | some (s, e) => decide (s ≤ (blk : Int)) && decide ((blk : Int) ≤ e)
+    | some (s, e) => decide (s ≤ (heightOf blk : Int)) && decide ((heightOf blk : Int) ≤ e)
     | none => false
   -- every filter returned / cached / persisted matches the committed headers
   let c1 := match o.result with
-    | .ret _ v => if v then [] else ["returned-mismatch"]
+    | .ret _ v other => if other then ["returned-filter-of-other-block"] else if v then [] else ["returned-mismatch"]
     | .err _ => []
   let c2 := if o.cache.any (fun e => !e.v) then ["cached-mismatch"] else []
   let c3 := if o.db.any (fun e => !e.v) then ["persisted-mismatch"] else []
   -- provenance: a returned filter was in the cache / database before or is a good delivered response for the target
   let c4 := match o.result with
-    | .ret fid _ => if inC b.cache c.target fid || inD b.db c.target fid || (goodFor c.target fid && inRange c.target) then []
+    | .ret fid _ _ => if inC b.cache c.target fid || inD b.db c.target fid || (goodFor c.target fid && inRange c.target) then []
                     else ["returned-unverified"]
     | .err _ => []
   -- rejected kinds are never stored: every new entry is a good, solicited, delivered response
@@ -106,9 +121,12 @@ def oracle (fhs : List Nat) (best : Nat) (maxRangeObs : Int) (c : Call) (xs : Li
   let c10 := match o.range with
     | some (s, e) =>
       if o.prog.contains .finished && decide (s ≤ e) &&
-         (List.range (e - s + 1).toNat).any (fun k => !accepted.contains (s.toNat + k))
+         (List.range (e - s + 1).toNat).any (fun k => !(accepted.map heightOf).contains (s.toNat + k))
       then ["complete-with-missing"] else []
     | none => if o.prog.contains .finished then ["complete-with-missing"] else []
   c1 ++ c2 ++ c3 ++ c4 ++ c5 ++ c6 ++ c7 ++ c8 ++ c9 ++ c10
+
+def oracle (fhs : List Nat) (best : Nat) (maxRangeObs : Int) (c : Call) (xs : List RespX) (b : Before) (o : Obs) : List String :=
+  oracleAt (hdrAtOf fhs) id best maxRangeObs c xs b o
 
 end Neutrino.GetCFilter
